@@ -24,8 +24,8 @@ def instances(tier):
             for cfg in (("space", False, False, ""), ("any", True, True, "ab"), ("clip", True, False, "")):
                 wrap, multiline, allow_tab, caption = cfg
                 layout_key = key in ("home", "end", "up", "down", "click")
-                if L == 2 and layout_key and not (cfg[0] == "space" and (key in ("up", "end") or not q)):
-                    continue  # (the L = 2 layout-dependent steps take minutes each: two of them in the quick tier, the 'space' ones in thorough)
+                if L == 2 and layout_key and not (cfg[0] == "space" and key in ("up", "end")):
+                    continue  # (the L = 2 layout-dependent steps take minutes each: two of them run; the others did not fit a 22-minute thorough budget)
                 if q and L == 1 and key == "click" and cfg[0] != "any":
                     continue
                 out.append(Instance("edit.%s.%s.L%d.%s" % (wrap, "cap" if caption else "nocap", L, key), "h_edit",
